@@ -7,7 +7,7 @@ ID = 'C11'
 EXES = ['release']
 RULE = ('each case obtains pairing values g, h (pairings of random / boundary multiples of the generators through a random entry point, '
         'and derived values: products, powers, inverses) and evaluates through the library g*h, h*g, g*one, inverse(g), inverse(g)*g, '
-        'g^a, g^b, g^a*g^b, g^(a+b), (g^a)^b, g^(ab), (g*h)^a, g^a*h^a, g^0, g^1, and == on equal and unequal pairs; every returned '
+        'g^a, g^b, g^a*g^b, g^(a+b), (g^a)^b, g^(ab), (g*h)^a, g^a*h^a, g^0, g^1, and == on equal and unequal pairs incl. Frobenius conjugates g^(q^k) (which share coefficient blocks with g); every returned '
         '384-byte value is parsed (each limb < q) and compared with the model\'s flat Fq12 product / extended-Euclid inverse / '
         'square-and-multiply; == must coincide with byte equality. distinct = distinct (op, operand bytes, scalar); '
         'non-trivial = operands are not one and the scalar is not 0 or 1')
@@ -20,7 +20,7 @@ def cases(tier, seed):
 
 def required(tier):
     return ['mul', 'mul/commuted', 'mul/one', 'inverse', 'inverse*g', 'pow', 'pow/0', 'pow/1', 'pow/r-1', 'law/add-exponents', 'law/mul-exponents',
-            'law/distribute', 'eq/true', 'eq/false', 'limbs<q', 'derived-operand']
+            'law/distribute', 'eq/true', 'eq/false', 'limbs<q', 'derived-operand', 'conjugate']
 
 
 def run(ctx, spec):
@@ -96,6 +96,16 @@ def run(ctx, spec):
     ha = pw(h, a, 'pow', a > 1)
     rr_ = mul(ga, ha, 'law/distribute')
     eq(l, rr_)
+    # Frobenius conjugates g^(q^k): distinct group elements that share whole blocks of coefficients with g
+    # (g^(q^4) keeps the v^0 block, g^(q^6) is the conjugate): == must still tell them apart
+    kf = rng.randrange(1, 12)
+    cj = pw(g, pow(rm.q, kf, r), 'conjugate')
+    if rm.frob(model[g], kf) != model[cj]:
+        raise AssertionError('model: frobenius disagrees with powering')
+    eq(g, cj)
+    eq(cj, g)
+    cj2 = pw(cj, pow(rm.q, 12 - kf, r), 'conjugate')
+    eq(cj2, g)
     # derived operands: products / powers / inverses as inputs of further operations
     d1 = mul(l, inv, 'derived-operand')
     d2, i = pr.let('gt.inverse', d1)
